@@ -409,7 +409,7 @@ def gen_pearson(tier, seed):
         x = [rng.randint(-3, 3) + rng.choice((0, 1, 2)) * z[0][i] - z[1][i] + rng.choice((0, 7)) for i in range(n)]
         y = [rng.randint(-3, 3) + rng.choice((0, 1)) * x[i] + z[2][i] + rng.choice((0, 1)) * z[0][i] - 4 for i in range(n)]
         yield {"cols": dict(zip(CCOLS, [x, y] + z)), "X": "X", "Y": "Yy", "Zs": PZS, "centered": centered,
-               "shift": rng.choice((3, -7, 10, 100)), "scale": rng.choice(("2", "1/4", "8", "1/2")), "perm": rng.randrange(10 ** 6)}
+               "shift": rng.choice((3, -7, 10, 100, 50000)), "scale": rng.choice(("2", "1/4", "8", "1/2", "1000000000", "1/1000000000")), "perm": rng.randrange(10 ** 6)}
 
 
 def _well_posed(cols, X, Y, Z):
@@ -482,7 +482,9 @@ def check_pearsonr(case, part="core"):
             sc = dict(cols)
             sc[var] = [float(Fraction(v) * scale) for v in cols[var]]
             g2 = T.pearsonr(X, Y, list(Z), _cframe(sc), boolean=False)
-            if not _close(g2[0], r, 1e-7, 1e-8):
+            # extreme units (x 1e9 / 1e-9) cost a few digits in the least-squares solve: looser tolerance there
+            tol = (1e-7, 1e-8) if Fraction(1, 1000) < scale < 1000 else (1e-5, 1e-6)
+            if not _close(g2[0], r, tol[0], tol[1]):
                 return {"key": "scale-invariance", "what": f"{where}: r={r}, after multiplying {var} by {scale}: {g2[0]}"}
         if not Z:
             sc = dict(cols)
